@@ -25,17 +25,40 @@ Example C17_export_equivariant_nonvacuous :
 Proof. exact demo_flow_exports. Qed.
 Print Assumptions C17_export_equivariant_nonvacuous.
 
-(* 2. the sheet contains no uuid: on flows whose has_group cases occur only in group splits *)
+(* 2. the sheet contains no uuid.  The guard [flow_ok] is decided by the regenerated probe
+   [has_group_case_by_name] (which argument of a has_group case SwitchRouter.get_exit_edge_pairs
+   writes into a condition when the operand is not @contact.groups):
+   - unrepaired tree (probe false): every case that carries a group uuid sits in a group split --
+     a restriction of the inputs; the unrestricted statement is refuted below (finding
+     has_group-case-outside-group-split);
+   - repaired tree (probe true): every case that carries a group uuid is a has_group case -- the
+     invariant [flow_wf] of the representation (only has_group cases have [k_group]; the harness
+     checks it on every encoded flow), i.e. no restriction: the statement is unconditional. *)
 Theorem C17_no_uuid_in_sheet :
   forall (U : Type) (ueqb : U -> U -> bool) (numbered : bool) (nodes : list (node U)),
     flow_ok nodes = true -> export_strip ueqb numbered nodes <> Ok None.
 Proof. exact no_uuid_in_sheet. Qed.
 Print Assumptions C17_no_uuid_in_sheet.
 
-(* ... and the unrestricted statement is false of the faithful model (finding
-   has_group-case-outside-group-split) *)
+Theorem C17_no_uuid_in_sheet_repaired :
+  forall (U : Type) (ueqb : U -> U -> bool) (numbered : bool) (nodes : list (node U)),
+    has_group_case_by_name = true -> flow_wf nodes = true -> export_strip ueqb numbered nodes <> Ok None.
+Proof. exact no_uuid_in_sheet_repaired. Qed.
+Print Assumptions C17_no_uuid_in_sheet_repaired.
+
+(* ... the unrestricted statement on the witness flow (a has_group case [group uuid 77, "my group"]
+   under the operand @input.text): false of the faithful model of an unrepaired tree (finding
+   has_group-case-outside-group-split, reproduced on the code), true of a repaired one *)
+Theorem C17_no_uuid_in_sheet_witness :
+  flow_wf leak_flow = true /\
+  if has_group_case_by_name then export_strip N.eqb false leak_flow <> Ok None
+  else export_strip N.eqb false leak_flow = Ok None.
+Proof. exact no_uuid_in_sheet_witness. Qed.
+Print Assumptions C17_no_uuid_in_sheet_witness.
+
 Theorem C17_no_uuid_in_sheet_refuted :
-  exists nodes : list (node N), export_strip N.eqb false nodes = Ok None.
+  has_group_case_by_name = false ->
+  exists nodes : list (node N), flow_wf nodes = true /\ export_strip N.eqb false nodes = Ok None.
 Proof. exact no_uuid_in_sheet_refuted. Qed.
 Print Assumptions C17_no_uuid_in_sheet_refuted.
 
